@@ -36,6 +36,12 @@ fn main() {
         println!("d11 witness returned {res:?}");
         return;
     }
+    if argv[0] == "explain" {
+        let text = std::fs::read_to_string(&argv[1]).expect("file");
+        let v: serde_json::Value = serde_json::from_str(&text).expect("json");
+        vh::scenengine::explain(&v["case"]);
+        return;
+    }
     if argv[0] == "replay" {
         let text = std::fs::read_to_string(&argv[1]).expect("replay file");
         let v: serde_json::Value = serde_json::from_str(&text).expect("replay json");
